@@ -1,7 +1,7 @@
 (* C08 - property theorems only (statements over the model in C08_Model).
    Domain: [wf_content] = rows match variants and samples, variant IDs unique;
    [wf_query] = the ID restriction is a set (duplicate-free). *)
-From HV Require Import Prelude C07_Model C07_Check C07_Proofs C08_Model C08_Check C08_Proofs C08_Proofs2.
+From HV Require Import Prelude BpText C07_Text C07_Model C07_Check C07_Proofs C08_Model C08_Region C08_Check C08_Proofs C08_Proofs2 C08_Proofs3.
 
 (* core: VCF.  A restricted read returns exactly the full read filtered in file
    order (rows by region overlap and ID membership, columns by sample membership),
@@ -419,3 +419,203 @@ Theorem C08_holds_seq_sound :
                     /\ g_variants cp = g_variants rd /\ g_rows cp = g_rows rd).
 Proof. exact holds_seq_sound. Qed.
 Print Assumptions C08_holds_seq_sound.
+
+(* ------------------------------------------------------------------------------------
+   Region strings.  The readers are handed the region as TEXT ('c', 'c:a-b', 'c:a-'); the
+   theorems above speak of the parsed region.  C08_Region models the three parsers at
+   character level - htslib behind the VCF reader ([hts_region]: the whole string is a contig
+   name if the file has one, else the contig is the text before the LAST colon), the PGEN
+   reader of the tree as it is ([parse_legacy]: re.split at every colon and dash, int(), _check_region)
+   and after fixes/C08_region_contig_names.patch ([parse_fixed]) - and a contig name as ONE
+   integer ([enc]), so that "the contig of the record is the contig of the region" is the
+   comparison of integers the theorems above make. *)
+
+(* the integer stands for the name: distinct names, distinct integers *)
+Theorem C08_contig_enc_injective :
+  forall s t, bytes s -> bytes t -> enc s = enc t -> s = t.
+Proof. exact enc_inj. Qed.
+Print Assumptions C08_contig_enc_injective.
+
+(* a loaded object keeps 10 characters of a contig name (numpy "U10"); on the integers: *)
+Theorem C08_contig_cut_to_10 :
+  forall s, bytes s -> load_chrom (enc s) = enc (firstn 10 s).
+Proof. exact load_chrom_enc. Qed.
+Print Assumptions C08_contig_cut_to_10.
+
+(* the tree as it is: the PGEN reader's parser inverts the canonical printing of
+   (contig, start?, end?) for every contig name WITHOUT ':' and '-' ... *)
+Theorem C08_region_parse_legacy_plain :
+  forall r, plain (fst (fst r)) -> wf_sregion r ->
+  bind (parse_legacy (print_region r)) region_of_preg = Ok r.
+Proof. exact print_parse_legacy. Qed.
+Print Assumptions C08_region_parse_legacy_plain.
+
+(* ... and not beyond: ValueError, TypeError, or silently the region of ANOTHER contig *)
+Theorem C08_legacy_region_refuted :
+  pgen_region false [enc s_hla] (print_region (s_hla, None, None)) = Err E_Value
+  /\ pgen_region false [enc s_hla] (print_region (s_hla, Some 5, Some 9)) = Err E_Value
+  /\ pgen_region false [enc s_un; enc s_un1] (print_region (s_un1, None, None)) = Ok (enc s_un, Some 1, None)
+  /\ pgen_region false [enc s_un; enc s_un1] (print_region (s_un1, Some 3, Some 3)) = Err E_Type
+  /\ pgen_region false [enc s_67] (print_region (s_67, None, None)) = Ok (enc [54], Some 7, None)
+  /\ pgen_region true [enc s_hla] (print_region (s_hla, Some 5, Some 9)) = Ok (enc s_hla, Some 5, Some 9)
+  /\ pgen_region true [enc s_un; enc s_un1] (print_region (s_un1, None, None)) = Ok (enc s_un1, None, None)
+  /\ pgen_region true [enc s_67] (print_region (s_67, None, None)) = Ok (enc s_67, None, None)
+  /\ hts_region [enc s_un; enc s_un1] (print_region (s_un1, Some 3, Some 3)) = (enc s_un1, Some 3, Some 3)
+  /\ hts_region [enc s_67] (print_region (s_67, None, None)) = (enc s_67, None, None).
+Proof. exact legacy_region_refuted. Qed.
+Print Assumptions C08_legacy_region_refuted.
+
+(* the repaired PGEN parser: for EVERY contig name the readings of the printed region are the
+   region itself and at most one other string-as-a-name ... *)
+Theorem C08_region_parse_fixed_print :
+  forall c a b, 0 <= a -> match b with Some b' => 0 <= b' | None => True end ->
+  parse_fixed (print_region (c, Some a, b))
+  = [(print_region (c, Some a, b), []); (c, a :: match b with Some b' => [b'] | None => [] end)].
+Proof. exact parse_fixed_print_pos. Qed.
+Print Assumptions C08_region_parse_fixed_print.
+
+(* ... so, unless the file holds a contig named like that other reading ([unambiguous]), the
+   region the reader derives from the text keeps exactly the records of the file that the
+   printed region keeps: for every contig name, the contig present in the file or absent *)
+Theorem C08_region_string_pgen :
+  forall chroms r v,
+  wf_sregion r -> unambiguous chroms r -> In (v_chrom v) chroms -> 0 <= v_chrom v ->
+  exists rg, pgen_region true chroms (print_region r) = Ok rg
+             /\ in_region_pgen rg v = in_region_pgen (enc_region r) v.
+Proof. exact region_string_pgen. Qed.
+Print Assumptions C08_region_string_pgen.
+
+(* htslib (1-based bounds) *)
+Theorem C08_region_string_vcf :
+  forall chroms r v,
+  wf_sregion r -> unambiguous chroms r -> hts_pre r -> In (v_chrom v) chroms -> 0 <= v_chrom v ->
+  in_region_vcf (hts_region chroms (print_region r)) v = in_region_vcf (enc_region r) v.
+Proof. exact region_string_vcf. Qed.
+Print Assumptions C08_region_string_vcf.
+
+(* the reads through the text are the reads with the parsed region (to which every theorem
+   above applies): VCF, PGEN repaired (every contig name), PGEN as it is (names without ':','-') *)
+Theorem C08_vcf_read_by_string :
+  forall fixed0 c q r,
+  wf_sregion r -> hts_pre r -> unambiguous (chroms_of c) r -> chroms_nonneg c ->
+  vcf_read_s fixed0 c q (print_region r) = vcf_read_x fixed0 c (q_set_region q (Some (enc_region r)))
+  /\ vcf_iter_s fixed0 c q (print_region r) = vcf_iter_x fixed0 c (q_set_region q (Some (enc_region r))).
+Proof. exact vcf_read_by_string. Qed.
+Print Assumptions C08_vcf_read_by_string.
+
+Theorem C08_pgen_read_by_string :
+  forall pload fixed0 chunk c q r,
+  wf_sregion r -> unambiguous (chroms_of c) r -> chroms_nonneg c ->
+  pgen_read_s pload true fixed0 chunk c q (print_region r)
+  = pgen_read_x pload fixed0 chunk c (q_set_region q (Some (enc_region r)))
+  /\ pgen_iter_s pload true fixed0 c q (print_region r)
+     = pgen_iter_x pload fixed0 c (q_set_region q (Some (enc_region r))).
+Proof. exact pgen_read_by_string. Qed.
+Print Assumptions C08_pgen_read_by_string.
+
+Theorem C08_pgen_read_by_string_legacy :
+  forall pload fixed0 chunk c q r,
+  plain (fst (fst r)) -> wf_sregion r ->
+  pgen_read_s pload false fixed0 chunk c q (print_region r)
+  = pgen_read_x pload fixed0 chunk c (q_set_region q (Some (enc_region r)))
+  /\ pgen_iter_s pload false fixed0 c q (print_region r)
+     = pgen_iter_x pload fixed0 c (q_set_region q (Some (enc_region r))).
+Proof. exact pgen_read_by_string_legacy. Qed.
+Print Assumptions C08_pgen_read_by_string_legacy.
+
+Theorem C08_region_hypotheses_satisfiable :
+  wf_sregion (s_un1, Some 3, Some 3) /\ hts_pre (s_un1, Some 3, Some 3)
+  /\ unambiguous [enc s_un; enc s_un1] (s_un1, Some 3, Some 3)
+  /\ unambiguous [enc s_67] (s_67, None, None) /\ bytes s_un1 /\ ~ plain s_un1.
+Proof. exact region_hypotheses_satisfiable. Qed.
+Print Assumptions C08_region_hypotheses_satisfiable.
+
+(* soundness of the [read] checker as it is evaluated now *)
+Theorem C08_holds_read_sound :
+  forall k, holds_read k = true -> read_dom k = true ->
+  holds_vcf k = true /\ holds_cross_full k = true
+  /\ (pgen_region_misread k = false ->
+      holds_fmt (rc_strict_samples k) (load_q (rc_q k)) (rc_pgen k) = true
+      /\ holds_cross_restricted k = true).
+Proof. exact holds_read_sound. Qed.
+Print Assumptions C08_holds_read_sound.
+
+Theorem C08_holds_vcf_sound :
+  forall k, holds_vcf k = true ->
+  (rc_vcf_unindexed k = true /\ (exists e e', fo_read (rc_vcf k) = Err e /\ fo_iter (rc_vcf k) = Err e'))
+  \/ holds_fmt (rc_strict_samples k) (load_q (vcf_q k)) (rc_vcf k) = true.
+Proof. exact holds_vcf_sound. Qed.
+Print Assumptions C08_holds_vcf_sound.
+
+(* what the switch STRICT_REGION_CONTIG_NAMES excuses while it is off: only a text that the
+   legacy parser does not read as the region that was meant - never a contig name without
+   ':' and '-' - and nothing once it is on *)
+Theorem C08_misread_spec :
+  forall k, pgen_region_misread k = true ->
+  rc_fixed_region k = false
+  /\ exists s r, rc_regstr k = Some s /\ q_region (rc_q k) = Some r
+                 /\ pgen_region false (chroms_of (rc_c k)) s <> Ok r.
+Proof. exact misread_spec. Qed.
+Print Assumptions C08_misread_spec.
+
+Theorem C08_misread_plain :
+  forall k r,
+  rc_regstr k = Some (print_region r) -> q_region (rc_q k) = Some (enc_region r) ->
+  plain (fst (fst r)) -> wf_sregion r -> pgen_region_misread k = false.
+Proof. exact misread_plain. Qed.
+Print Assumptions C08_misread_plain.
+
+Theorem C08_misread_fixed :
+  forall k, rc_fixed_region k = true -> pgen_region_misread k = false.
+Proof. exact misread_fixed. Qed.
+Print Assumptions C08_misread_fixed.
+
+(* ------------------------------------------------------------------------------------
+   "... so every command gives the same result for either format".  What follows from the
+   reader-level theorem: ANY command that is a function of what was loaded - samples, variants,
+   allele indices, phase of heterozygous calls ([loaded_equiv]) - returns the same result for
+   the VCF and the PGEN file of one content.  The [cmdfmt] relation tests exactly the
+   hypothesis [looks_at_content_only] on haptools transform / ld / simphenotype / clump. *)
+Theorem C08_command_same_result :
+  forall (R : Type) (cmd : geno -> R) pload c q chunk,
+  looks_at_content_only cmd ->
+  pload_contract pload -> wf_content c -> wf_query q -> chunk_dom chunk ->
+  geno_domb false c = true -> g_variants c <> [] -> selected_samples c q <> [] ->
+  region_comparable c q ->
+  exists gv gp, vcf_read_q c q = Ok gv /\ pgen_read_q pload false chunk c q = Ok gp
+                /\ cmd gv = cmd gp.
+Proof. exact @command_same_result. Qed.
+Print Assumptions C08_command_same_result.
+
+(* the hypothesis is satisfiable: names and allele dosages *)
+Theorem C08_looks_at_content_only_example : looks_at_content_only summary.
+Proof. exact summary_looks_at_content_only. Qed.
+Print Assumptions C08_looks_at_content_only_example.
+
+Theorem C08_holds_cmdfmt_sound :
+  forall k, holds_cmdfmt k = true -> cmd_region_misread k = false -> cmd_empty_excused k = false ->
+  co_exit (cc_out_v k) = co_exit (cc_out_p k) /\ co_exc (cc_out_v k) = co_exc (cc_out_p k)
+  /\ co_out (cc_out_v k) = co_out (cc_out_p k).
+Proof. exact holds_cmdfmt_sound. Qed.
+Print Assumptions C08_holds_cmdfmt_sound.
+
+(* what the switch STRICT_CMD_EMPTY_LOAD excuses while it is off: only runs in which the VCF read left an
+   array without cells - shape (0, 0, 0) - beside the same samples, and the PGEN read another shape ... *)
+Theorem C08_empty_excused_spec :
+  forall k, cmd_empty_excused k = true ->
+  cc_strict_empty k = false
+  /\ exists a b, cc_load_v k = Some (Ok a) /\ cc_load_p k = Some (Ok b)
+                 /\ no_cells a = true /\ g_samples a = g_samples b /\ g_shape a <> g_shape b.
+Proof. exact empty_excused_spec. Qed.
+Print Assumptions C08_empty_excused_spec.
+
+(* ... which the two readers only do when nothing was matched: with a sample selected, the same
+   records selected and at least one of them, both arrays have shape (n, p, 3) *)
+Theorem C08_read_shapes_agree :
+  forall pload c q chunk,
+  wf_content c -> wf_query q -> chunk_dom chunk -> selected_samples c q <> [] ->
+  select in_region_vcf q (combine (g_variants c) (g_rows c)) = select in_region_pgen q (combine (g_variants c) (g_rows c)) ->
+  take_q q (select in_region_vcf q (combine (g_variants c) (g_rows c))) <> [] ->
+  exists gv gp, vcf_read_q c q = Ok gv /\ pgen_read_q pload false chunk c q = Ok gp /\ g_shape gv = g_shape gp.
+Proof. exact read_shapes_agree. Qed.
+Print Assumptions C08_read_shapes_agree.
